@@ -17,6 +17,7 @@ import (
 	"github.com/attestantio/go-eth2-client/spec/phase0"
 	"github.com/attestantio/vouch/mock"
 	nullmetrics "github.com/attestantio/vouch/services/metrics/null"
+	firstheader "github.com/attestantio/vouch/strategies/beaconblockheader/first"
 	"github.com/attestantio/vouch/verifsupport"
 	"github.com/rs/zerolog"
 )
@@ -30,6 +31,13 @@ type c18cScenario struct {
 	Events  []int    `json:"events"`  // block events during the overlap
 	Lookups []int    `json:"lookups"` // lookups during the overlap (the node answers them)
 	Rounds  int      `json:"rounds"`  // clean runs during the overlap
+	// Via "first": the cache's header provider is the real "first" beacon block header strategy over the scripted
+	// node(s), as main.go wires it; HeadReqs requests for the "head" header (the controller's early proposal
+	// asks the same strategy instance) overlap the lookups; LatencyUs is the node's answer time.
+	Via       string `json:"via"`
+	Nodes     int    `json:"nodes"`
+	HeadReqs  int    `json:"headreqs"`
+	LatencyUs int    `json:"latency_us"`
 }
 
 // c18cHeaders is a concurrency-safe scripted beacon node.
@@ -38,14 +46,35 @@ type c18cHeaders struct {
 	chain []uint64
 	fail  bool
 	calls int
+	// answer time (outside the lock: requests overlap at the node as they do at a real one)
+	latency time.Duration
+	// this node fails every request (a second, broken node behind the strategy)
+	broken bool
 }
 
 func (h *c18cHeaders) BeaconBlockHeader(_ context.Context, opts *api.BeaconBlockHeaderOpts) (*api.Response[*apiv1.BeaconBlockHeader], error) {
+	if h.latency > 0 {
+		time.Sleep(h.latency)
+	}
 	h.mu.Lock()
 	defer h.mu.Unlock()
 	h.calls++
-	if h.fail {
+	if h.fail || h.broken {
 		return nil, errors.New("scripted failure")
+	}
+	if opts.Block == "head" {
+		// the block of the highest slot
+		best := 0
+		for i := range h.chain {
+			if h.chain[i] >= h.chain[best] {
+				best = i
+			}
+		}
+		return &api.Response[*apiv1.BeaconBlockHeader]{
+			Data: &apiv1.BeaconBlockHeader{Root: c18Root(best + 1), Canonical: true,
+				Header: &phase0.SignedBeaconBlockHeader{Message: &phase0.BeaconBlockHeader{Slot: phase0.Slot(h.chain[best])}}},
+			Metadata: map[string]any{},
+		}, nil
 	}
 	for i := range h.chain {
 		r := c18Root(i + 1)
@@ -70,7 +99,24 @@ func TestVerifC18Conc(t *testing.T) {
 	for _, sc := range scenarios {
 		ct := verifsupport.NewChainTime(32, 12*time.Second)
 		ct.SetSlot(sc.Now)
-		headers := &c18cHeaders{chain: sc.Chain}
+		headers := &c18cHeaders{chain: sc.Chain, latency: time.Duration(sc.LatencyUs) * time.Microsecond}
+		var headersProvider eth2client.BeaconBlockHeadersProvider = headers
+		if sc.Via == "first" {
+			providers := map[string]eth2client.BeaconBlockHeadersProvider{"node1": headers}
+			if sc.Nodes > 1 {
+				providers["node2"] = &c18cHeaders{chain: sc.Chain, broken: true, latency: headers.latency / 2}
+			}
+			strategy, err := firstheader.New(ctx,
+				firstheader.WithLogLevel(zerolog.Disabled),
+				firstheader.WithClientMonitor(nullmetrics.New()),
+				firstheader.WithTimeout(2*time.Second),
+				firstheader.WithBeaconBlockHeadersProviders(providers),
+			)
+			if err != nil {
+				t.Fatalf("first header strategy: %v", err)
+			}
+			headersProvider = strategy
+		}
 		events := &c18Events{handlers: map[string]eth2client.EventHandlerFunc{}}
 		sched := verifsupport.NewScheduler()
 		s, err := New(ctx,
@@ -78,7 +124,7 @@ func TestVerifC18Conc(t *testing.T) {
 			WithMonitor(nullmetrics.New()),
 			WithChainTime(ct),
 			WithSignedBeaconBlockProvider(mock.NewSignedBeaconBlockProvider()),
-			WithBeaconBlockHeadersProvider(headers),
+			WithBeaconBlockHeadersProvider(headersProvider),
 			WithEventsProvider(events),
 			WithScheduler(sched),
 		)
@@ -158,6 +204,13 @@ func TestVerifC18Conc(t *testing.T) {
 			run("lookup", root, func() (uint64, bool) {
 				slot, err := s.BlockRootToSlot(ctx, c18Root(root))
 				return uint64(slot), err == nil
+			})
+		}
+		for i := 0; i < sc.HeadReqs; i++ {
+			// another user of the same header provider, not of the cache: nothing to linearize
+			run("headreq", 0, func() (uint64, bool) {
+				_, err := headersProvider.BeaconBlockHeader(ctx, &api.BeaconBlockHeaderOpts{Block: "head"})
+				return 0, err == nil
 			})
 		}
 		close(start)
